@@ -251,6 +251,7 @@ class Ctx:
                       open(os.path.join(VERIF, path), "w"), indent=1, default=str)
             lines.append("VIOLATION property=%s replay=%s no-failing-input-found" % (self.prop, path))
             code = 1
+        n_dis, n_obl = self.cov["discharged"], self.cov["obligations"]
         if self.cov["discharged"] < 1:   # keep the file schema-valid: proof keys need >= 1, fall back to the generic keys
             self.cov["obligations_total"] = self.cov.pop("obligations")
             self.cov["discharged_count"] = self.cov.pop("discharged")
@@ -266,6 +267,6 @@ class Ctx:
         for l in lines:
             print(l)
         print("%s %s seed=%d: obligations %d/%d, evaluations %d, distinct %d, %.1fs -> %s" % (
-            self.prop, self.tier, self.seed, self.cov["discharged"], self.cov["obligations"],
+            self.prop, self.tier, self.seed, n_dis, n_obl,
             self.cov["evaluations"], self.cov["distinct_nontrivial"], self.elapsed(), "FAIL" if code else "ok"))
         return code
